@@ -846,9 +846,11 @@ class Barrier(ICircuitOperation):
         :param relation_transfer_lookup: Lookup table used to transfer relation link.
         :return: Copy of self with updated relation link.
         """
-        return Barrier(
+        result = Barrier(
             qubit_indices=self.qubit_indices,
         )
+        result.relation_link = self.relation.copy(relation_transfer_lookup=relation_transfer_lookup)
+        return result
 
     def apply_modifiers_to_self(self) -> ICircuitOperation:
         """
